@@ -26,6 +26,7 @@ pub fn run(args: &Args, out: Out) {
         "resp-faults" => response::run_faults(args, out),
         "status-all" => response::run_status(args, out),
         "exchange-gen" => exchange::run_gen(args, out),
+        "recv-body" => exchange::run_recv_body(args, out),
         "limits" => exchange::run_limits(args, out),
         "tokens-enum" => server::run_tokens(args, out),
         "server-stress" => server::run_stress(args, out),
